@@ -191,7 +191,6 @@ def run(ctx):
     import sim.env, sim.scen          # noqa
     from sim import s5_handshake as H
     run_history(((frozenset([4]),), 4, True, False, 0.0, (frozenset([6]),)), 1)      # warm-up: everything imported lazily is loaded now
-    H.settle_heap()
     if tuple(sorted(ProtocolVersion.SUPPORTED_VERSIONS, reverse=True)) != ALL or tuple(ProtocolVersion.BETA_VERSIONS) != BETA:
         raise Inconclusive("the driver's version tables changed (%r beta %r): the reference walk of this monitor must be revisited" % (
             ProtocolVersion.SUPPORTED_VERSIONS, ProtocolVersion.BETA_VERSIONS))
@@ -216,11 +215,12 @@ def run(ctx):
     order_rng = random.Random(ctx.seed)
     order_rng.shuffle(primary)
     order_rng.shuffle(secondary)
+    H.settle_heap()           # after the case lists exist: SimEnv's per-world gc.collect() must not rescan them every time
     # the amount of work is fixed by counts (deterministic); the wall-clock cap only guards against a badly overloaded machine
     import time
     wall0 = time.time()
     wall_cap = 75.0 if ctx.quick else 840.0
-    n_primary = 750 if ctx.quick else len(primary)        # per worker on quick (4 workers: 3000 of the 16384 cases, ~18 ms CPU each)
+    n_primary = 650 if ctx.quick else len(primary)        # per worker on quick (4 workers: 2600 of the 16384 cases, ~18 ms CPU each)
     n_secondary = 60 if ctx.quick else len(secondary)
 
     def left(share):
@@ -305,7 +305,7 @@ def run(ctx):
         ctx.exhaustive = bool(done_primary and ctx.counters.get("histories_over_budget", 0) == 0)
     if done_primary and done_secondary:
         ctx.note("allow_beta copy of the space completed by this worker")
-    # floors: well below the fixed amount of work (quick 825 histories per worker); thorough = the whole primary space
+    # floors: well below the fixed amount of work (quick 725 histories per worker); thorough = the whole primary space
     ctx.floor_distinct = 500 if quick else 16384
     k = 1 if quick else 16
     ctx.floor_counters = {"histories": 500 * k, "downgrade_steps": 200 * k, "connects_succeeded": 150 * k, "connects_failed": 100 * k,
